@@ -29,7 +29,7 @@ func init() {
 		Floor:         c07Floor,
 		MinNontrivial: 50,
 		Phases: []fw.Phase{
-			{Name: "staged", N: func(t fw.Tier) int { return pick(t, 2000, 150000) }, Run: c07Run},
+			{Name: "staged", N: func(t fw.Tier) int { return pick(t, 8000, 200000) }, Run: c07Run},
 		},
 		Witness: sqlWitness,
 	})
